@@ -1,36 +1,99 @@
-//! C20 — size and interval literals. Real code: the serde visitors behind `SizeTriggerConfig.limit`
-//! and `TimeTriggerInterval`, driven through `serde_json` (explicit scalar kinds) and `serde_yaml`.
+//! C20 — size and interval literals, and the `refresh_rate` duration.
+//!
+//! Real code driven:
+//!   * the serde visitors behind `SizeTriggerConfig.limit` and `TimeTriggerInterval`, directly
+//!     (`serde_json` / `serde_yaml` / `toml` -> the config struct) AND through the real
+//!     configuration path (`load_config_file` for YAML, `RawConfig` -> `appenders_lossy(&Deserializers
+//!     ::default())` for JSON and TOML), where the scalar travels as a `serde_value::Value` and the
+//!     trigger is really built (`SizeTrigger::new`, `TimeTrigger::new`); the parsed value is read
+//!     back from the Debug rendering of the built appender, and for small size limits by a rolling
+//!     run (a record that makes the file exactly `limit` bytes long must not roll, one more byte must);
+//!   * `RawConfig.refresh_rate` (`de_duration` -> `humantime::parse_duration`) from YAML/JSON/TOML.
+//!
+//! Case lines (fields after the property id), `kind` = `size` | `interval` | `refresh`:
+//!   kind int   <decimal integer token>
+//!   kind str   <string>                                   (quoted in every format; YAML also plain
+//!                                                          when the plain scalar resolves to the same string)
+//!   kind other null|float|ifloat|efloat|bool|seq|map
+//!   kind lit   <n> <zeros> <ws> <unit|-> <mask> <ws2> <mut>   (size, interval: the generator's INTENT;
+//!                                                          the string is composed on both sides)
+//!   kind plain <yaml|json|toml> <token text> <rform> <rpayload>  (an unquoted token of that format and
+//!                                                          the scalar the generator says it resolves to)
+//!   refresh spans <n;zeros;ws;unit;sep , …>              (intent: a sum of number x unit spans)
+//! Observation: `ok:<bytes>[ roll=<0|1><0|1>]` | `ok:<unit>:<n>` | `ok:<secs>:<nanos>` | `none` | `err` |
+//! `PANIC`, or `LEGS-DISAGREE …` when the formats / paths do not agree with each other.
 use crate::proto::*;
 use crate::rng::Rng;
-use log4rs::append::rolling_file::policy::compound::trigger::{
-    size::SizeTriggerConfig,
-    time::{TimeTriggerConfig, TimeTriggerInterval},
-};
+use log4rs::append::rolling_file::policy::compound::trigger::{size::SizeTriggerConfig, time::TimeTriggerConfig};
+use log4rs::config::{Deserializers, RawConfig};
+use std::fmt::Write as _;
+use std::path::PathBuf;
 
-const SIZE_UNITS: &[&str] = &["b", "kb", "kib", "mb", "mib", "gb", "gib", "tb", "tib"];
-const TIME_UNITS: &[&str] = &[
+pub const SIZE_UNITS: &[&str] = &["b", "kb", "kib", "mb", "mib", "gb", "gib", "tb", "tib"];
+pub const TIME_UNITS: &[&str] = &[
     "second", "seconds", "minute", "minutes", "hour", "hours", "day", "days", "week", "weeks", "month", "months",
     "year", "years",
 ];
-const WS: &[&str] = &["", " ", "  ", "\t", "\u{a0}", "\u{2003}", "\u{3000}", "\n", " \t "];
+/// humantime 2.4.0's suffix table (case-sensitive), with the multiplier: (word, nanos-domain?, multiplier)
+pub const REFRESH_UNITS: &[(&str, bool, u64)] = &[
+    ("nanos", true, 1), ("nsec", true, 1), ("ns", true, 1),
+    ("usec", true, 1_000), ("us", true, 1_000), ("µs", true, 1_000),
+    ("millis", true, 1_000_000), ("msec", true, 1_000_000), ("ms", true, 1_000_000),
+    ("seconds", false, 1), ("second", false, 1), ("secs", false, 1), ("sec", false, 1), ("s", false, 1),
+    ("minutes", false, 60), ("minute", false, 60), ("min", false, 60), ("mins", false, 60), ("m", false, 60),
+    ("hours", false, 3600), ("hour", false, 3600), ("hr", false, 3600), ("hrs", false, 3600), ("h", false, 3600),
+    ("days", false, 86400), ("day", false, 86400), ("d", false, 86400),
+    ("weeks", false, 604800), ("week", false, 604800), ("wk", false, 604800), ("wks", false, 604800), ("w", false, 604800),
+    ("months", false, 2_630_016), ("month", false, 2_630_016), ("M", false, 2_630_016),
+    ("years", false, 31_557_600), ("year", false, 31_557_600), ("yr", false, 31_557_600), ("yrs", false, 31_557_600), ("y", false, 31_557_600),
+];
+/// the 25 code points with the Unicode White_Space property (= `char::is_whitespace`)
+const WS25: &[u32] = &[
+    9, 10, 11, 12, 13, 0x20, 0x85, 0xA0, 0x1680, 0x2000, 0x2001, 0x2002, 0x2003, 0x2004, 0x2005, 0x2006, 0x2007, 0x2008,
+    0x2009, 0x200A, 0x2028, 0x2029, 0x202F, 0x205F, 0x3000,
+];
+/// look like white space, are not
+const NEAR_WS: &[u32] = &[0x1C, 0x1D, 0x1E, 0x1F, 0x180E, 0x200B, 0x200C, 0x200D, 0x2060, 0xFEFF, 0xAD, 0x0];
+/// non-ASCII decimal digits
+const ODD_DIGITS: &[u32] = &[0x663, 0xFF13, 0x1D7D1, 0xB3, 0x2462, 0x96F];
 const JUNK: &[&str] = &[
     "x", "k", "bb", "kbs", "kb1", "1", ".5kb", ",5", "e3", "_", "-", "+", "kb kb", "µb", "ｋｂ", "secs", "s", "m", "h",
     "d", "w", "minutes5", "\u{200b}kb", "K", "kB\u{301}", "İb", "\u{212a}b", "\u{212a}ib", "\u{17f}econd", "\u{17f}econds", "day\u{17f}",
-    "Ｋｂ", "㎅", "kb\u{0}", "k b", "se conds",
+    "Ｋｂ", "㎅", "kb\u{0}", "k b", "se conds", "ss", "secondss", "ib", "bi", "kbi", "pb", "eb", "mbb", "sec", "min", "ms", "yr",
+    "fortnight", "b b", "b\u{a0}b", "0x10", "1_000",
+];
+/// suffixes that make any unit word invalid whatever follows (first char is neither a letter nor white space)
+const HARD_SUFFIX: &[&str] = &["1", "_", "-", ".", ",", "µ", "\u{200b}", "\u{0}", "\u{301}", "5kb", "\u{feff}", "/s"];
+const ALPHABET: &[char] = &[
+    '0', '1', '2', '3', '4', '5', '6', '7', '8', '9', '0', '1', '5', 'k', 'K', 'm', 'M', 'g', 't', 'i', 'b', 'B', 's', 'e', 'c', 'o',
+    'n', 'd', 'h', 'u', 'r', 'y', 'a', 'w', ' ', ' ', '\t', '.', '+', '-', '_', 'e', 'E', ':', '\u{a0}', 'µ', 'x',
 ];
 
-fn random_case(rng: &mut Rng, w: &str) -> String {
-    w.chars()
-        .map(|c| if rng.chance(1, 2) { c.to_ascii_uppercase() } else { c })
+fn ws_string(rng: &mut Rng, allow_empty: bool) -> String {
+    match rng.below(10) {
+        0..=2 if allow_empty => String::new(),
+        0..=5 => " ".to_owned(),
+        6 => "\t".to_owned(),
+        _ => {
+            let k = rng.range(1, 3);
+            (0..k).map(|_| char::from_u32(*rng.pick(WS25)).unwrap()).collect()
+        }
+    }
+}
+
+fn apply_mask(word: &str, mask: u64) -> String {
+    word.chars()
+        .enumerate()
+        .map(|(i, c)| if mask >> i & 1 == 1 { c.to_ascii_uppercase() } else { c })
         .collect()
 }
 
-fn numbers(mults: &[u128], limit: u128) -> Vec<u128> {
-    // 0, small, every overflow threshold ± 1, up to 21 digits
+fn thresholds(mults: &[u128], limit: u128) -> Vec<u128> {
+    // 0, small, every overflow threshold ± 1, up to 39 digits
     let mut v: Vec<u128> = vec![0, 1, 7, 10, 99, 1023, 1024, 1025, 4294967295, 4294967296];
     for m in mults {
-        let q = limit / m;
-        for d in [0i128, 1, -1, 2] {
+        let q = (limit + m - 1) / m; // least n with n*m >= limit
+        for d in [-2i128, -1, 0, 1, 2] {
             let x = q as i128 + d;
             if x >= 0 {
                 v.push(x as u128);
@@ -46,217 +109,832 @@ fn numbers(mults: &[u128], limit: u128) -> Vec<u128> {
         (1u128 << 64) + 1,
         99999999999999999999,
         100000000000000000000,
+        (1u128 << 127) - 1,
+        1u128 << 127,
         340282366920938463463374607431768211455,
     ] {
         v.push(x);
     }
+    v.sort();
+    v.dedup();
     v
 }
 
+fn random_number(rng: &mut Rng, pool: &[u128]) -> u128 {
+    if rng.chance(1, 2) {
+        *rng.pick(pool)
+    } else {
+        let digits = rng.range(1, 21);
+        let mut x: u128 = 0;
+        for i in 0..digits {
+            let d = if i == 0 { rng.range(1, 9) } else { rng.range(0, 9) };
+            x = x * 10 + d as u128;
+        }
+        x
+    }
+}
+
+/// start-up assertion (DESIGN §3): Rust classifies the sample characters as the Lean tables say
+fn assert_char_tables() {
+    let all: Vec<u32> = (0..=0x10FFFFu32).filter(|n| char::from_u32(*n).map(|c| c.is_whitespace()).unwrap_or(false)).collect();
+    assert_eq!(all, WS25.to_vec(), "char::is_whitespace is not the 25-entry White_Space table");
+    for n in NEAR_WS {
+        assert!(!char::from_u32(*n).unwrap().is_whitespace());
+    }
+    for n in ODD_DIGITS {
+        assert!(!char::from_u32(*n).unwrap().is_ascii_digit());
+    }
+    let digits: Vec<u32> = (0..=0x10FFFFu32).filter(|n| char::from_u32(*n).map(|c| c.is_ascii_digit()).unwrap_or(false)).collect();
+    assert_eq!(digits, (48..=57).collect::<Vec<u32>>());
+    for (i, (w, _, _)) in REFRESH_UNITS.iter().enumerate() {
+        assert!(REFRESH_UNITS.iter().position(|(x, _, _)| x == w) == Some(i));
+    }
+}
+
 pub fn gen(rng: &mut Rng, n: usize, thorough: bool, emit: &mut dyn FnMut(String)) {
+    assert_char_tables();
     let size_mults: Vec<u128> = vec![1, 1 << 10, 1 << 20, 1 << 30, 1 << 40];
-    let nums_size = numbers(&size_mults, 1u128 << 64);
-    let nums_time = numbers(&[1], 1u128 << 63);
-    // deterministic block: every unit × every boundary number × three white-space forms
+    let nums_size = thresholds(&size_mults, 1u128 << 64);
+    let nums_time = thresholds(&[1], 1u128 << 63);
+    let lit = |kind: &str, num: u128, z: u64, ws: &str, unit: Option<usize>, mask: u64, ws2: &str, mutation: &str| -> String {
+        format!(
+            "{}\tlit\t{}\t{}\t{}\t{}\t{}\t{}\t{}",
+            kind,
+            num,
+            z,
+            enc_str(ws),
+            unit.map(|u| u.to_string()).unwrap_or_else(|| "-".to_owned()),
+            mask,
+            enc_str(ws2),
+            mutation
+        )
+    };
+    // ---- deterministic block -------------------------------------------------------------------
     for (kind, units, nums) in [("size", SIZE_UNITS, &nums_size), ("interval", TIME_UNITS, &nums_time)] {
+        // every boundary number: bare (string and integer token, both signs), and x every unit x {"", " "}
         for num in nums.iter() {
-            emit(format!("{}\tstr\t{}", kind, enc_str(&num.to_string())));
+            emit(lit(kind, *num, 0, "", None, 0, "", "-"));
             emit(format!("{}\tint\t{}", kind, num));
-            if *num > 0 && *num <= (1u128 << 63) {
+            if *num > 0 {
                 emit(format!("{}\tint\t-{}", kind, num));
             }
-            for u in units.iter() {
+            for (ui, _) in units.iter().enumerate() {
                 for ws in ["", " "] {
-                    emit(format!("{}\tstr\t{}", kind, enc_str(&format!("{}{}{}", num, ws, u))));
+                    emit(lit(kind, *num, 0, ws, Some(ui), 0, "", "-"));
                 }
             }
         }
-        // all 2^len case patterns of every unit
-        for u in units.iter() {
-            let len = u.len();
-            let max_patterns = if thorough { 1usize << len } else { (1usize << len).min(16) };
-            for mask in 0..max_patterns {
-                let w: String = u
-                    .chars()
-                    .enumerate()
-                    .map(|(i, c)| if mask >> i & 1 == 1 { c.to_ascii_uppercase() } else { c })
-                    .collect();
-                emit(format!("{}\tstr\t{}", kind, enc_str(&format!("3{}", w))));
+        // all 2^len case patterns of every unit (both tiers: ~700 cases)
+        for (ui, u) in units.iter().enumerate() {
+            for mask in 0..(1u64 << u.len()) {
+                emit(lit(kind, 3, 0, if mask % 3 == 0 { " " } else { "" }, Some(ui), mask, "", "-"));
             }
         }
+        // every White_Space character between number and unit, after the unit, before the number (rejected),
+        // and as the whole remainder (rejected); every near-miss between number and unit (rejected)
+        for w in WS25 {
+            let w = char::from_u32(*w).unwrap().to_string();
+            emit(lit(kind, 5, 0, &w, Some(1), 0, "", "-"));
+            emit(lit(kind, 5, 0, "", Some(1), 0, &w, "-"));
+            emit(lit(kind, 5, 0, &w, Some(1), 2, &w, "-"));
+            emit(lit(kind, 5, 0, "", Some(1), 0, "", &format!("lead.{}", enc_str(&w))));
+            emit(lit(kind, 5, 0, &w, None, 0, "", "-"));
+        }
+        for w in NEAR_WS {
+            let w = char::from_u32(*w).unwrap().to_string();
+            emit(lit(kind, 5, 0, "", Some(1), 0, "", &format!("gap.{}", enc_str(&w))));
+            emit(lit(kind, 5, 0, " ", Some(1), 0, "", &format!("gap.{}", enc_str(&w))));
+        }
+        for d in ODD_DIGITS {
+            let d = char::from_u32(*d).unwrap().to_string();
+            emit(lit(kind, 5, 0, "", Some(1), 0, "", &format!("lead.{}", enc_str(&d))));
+            emit(lit(kind, 5, 0, "", None, 0, "", &format!("lead.{}", enc_str(&d))));
+            emit(lit(kind, 5, 0, "", Some(1), 0, "", &format!("gap.{}", enc_str(&d))));
+        }
         for j in JUNK.iter() {
-            for pre in ["3", "3 ", "3k", "3 second"] {
+            for pre in ["3", "3 ", "3k", "3 second", "3kb", "3 seconds "] {
                 emit(format!("{}\tstr\t{}", kind, enc_str(&format!("{}{}", pre, j))));
             }
         }
-        emit(format!("{}\tother\t-", kind));
-        emit(format!("{}\tother\tfloat", kind));
-        emit(format!("{}\tother\tbool", kind));
-    }
-    // random stream
-    for _ in 0..n {
-        let (kind, units, nums) = if rng.chance(1, 2) {
-            ("size", SIZE_UNITS, &nums_size)
-        } else {
-            ("interval", TIME_UNITS, &nums_time)
+        for s in ["", " ", "kb", "seconds", "-", "+", ".", "-0", "+0", "0", "00", "0 b", "0 seconds", "0x10", "0b", "0xb", "1e3", "1_000"] {
+            emit(format!("{}\tstr\t{}", kind, enc_str(s)));
+        }
+        for o in ["null", "float", "ifloat", "efloat", "bool", "seq", "map"] {
+            emit(format!("{}\tother\t{}", kind, o));
+        }
+        // unquoted tokens and what they are to the format's parser
+        let plain = |fmt: &str, text: &str, rform: &str, rpayload: &str| -> String {
+            format!("{}\tplain\t{}\t{}\t{}\t{}", kind, fmt, enc_str(text), rform, rpayload)
         };
-        let num = if rng.chance(1, 2) {
-            rng.pick(nums).to_string()
-        } else {
-            let digits = rng.range(1, 21);
-            let mut s = String::new();
-            for i in 0..digits {
-                let d = if i == 0 && rng.chance(3, 4) { rng.range(1, 9) } else { rng.range(0, 9) };
-                s.push((b'0' + d as u8) as char);
+        for v in [0u64, 5, 16, 1000, 4096, u64::MAX / 2, u64::MAX / 2 + 1, u64::MAX] {
+            emit(plain("yaml", &format!("+{}", v), "u64", &v.to_string()));
+            emit(plain("yaml", &format!("0x{:x}", v), "u64", &v.to_string()));
+            emit(plain("yaml", &format!("0x{:X}", v), "u64", &v.to_string()));
+            emit(plain("yaml", &format!("0o{:o}", v), "u64", &v.to_string()));
+            emit(plain("yaml", &format!("0b{:b}", v), "u64", &v.to_string()));
+            emit(plain("yaml", &format!("+0x{:x}", v), "u64", &v.to_string()));
+            emit(plain("yaml", &format!("!!int {}", v), "u64", &v.to_string()));
+            emit(plain("yaml", &format!("!!str {}", v), "str", &enc_str(&v.to_string())));
+            emit(plain("yaml", &format!("'{}'", v), "str", &enc_str(&v.to_string())));
+            emit(plain("yaml", &format!("{}.0", v), "other", "-"));
+            emit(plain("yaml", &format!("{}e0", v), "other", "-"));
+            emit(plain("yaml", &format!("{}_000", v), "str", &enc_str(&format!("{}_000", v))));
+            emit(plain("yaml", &format!("+{}kb", v), "str", &enc_str(&format!("+{}kb", v))));
+            emit(plain("yaml", &format!("+{} seconds", v), "str", &enc_str(&format!("+{} seconds", v))));
+            emit(plain("yaml", &format!("{} mb", v), "str", &enc_str(&format!("{} mb", v))));
+            emit(plain("yaml", &format!("{} Days", v), "str", &enc_str(&format!("{} Days", v))));
+            emit(plain("yaml", &format!("{}kb # comment", v), "str", &enc_str(&format!("{}kb", v))));
+            emit(plain("json", &format!("{}.0", v), "other", "-"));
+            emit(plain("json", &format!("{}e0", v), "other", "-"));
+            emit(plain("json", &format!("{}E+0", v), "other", "-"));
+            if v <= i64::MAX as u64 {
+                emit(plain("yaml", &format!("-0x{:x}", v), "i64", &format!("-{}", v)));
+                emit(plain("yaml", &format!("-0o{:o}", v), "i64", &format!("-{}", v)));
+                emit(plain("toml", &format!("+{}", v), "i64", &v.to_string()));
+                emit(plain("toml", &format!("0x{:x}", v), "i64", &v.to_string()));
+                emit(plain("toml", &format!("0o{:o}", v), "i64", &v.to_string()));
+                emit(plain("toml", &format!("0b{:b}", v), "i64", &v.to_string()));
+                emit(plain("toml", &format!("{}.0", v), "other", "-"));
+                emit(plain("toml", &format!("{}e0", v), "other", "-"));
+                if v >= 1000 {
+                    let s = v.to_string();
+                    emit(plain("toml", &format!("{}_{}", &s[..s.len() - 3], &s[s.len() - 3..]), "i64", &s));
+                }
             }
-            s
-        };
-        let lead0 = if rng.chance(1, 10) { "00" } else { "" };
-        let s = match rng.below(10) {
-            0..=4 => format!("{}{}{}{}{}", lead0, num, rng.pick(WS), { let u: &str = *rng.pick(units); random_case(rng, u) }, if rng.chance(1, 5) { *rng.pick(WS) } else { "" }),
-            5 => format!("{}{}", lead0, num),
-            6 => format!("{}{}{}", num, rng.pick(WS), rng.pick(JUNK)),
-            7 => format!("{}{}{}", rng.pick(&["-", "+", " ", "\t", "x", "."]), num, rng.pick(units)),
-            8 => format!("{}.{}{}", num, rng.range(0, 99), rng.pick(units)),
-            _ => format!("{}{}{}{}", num, rng.pick(WS), { let u: &str = *rng.pick(units); random_case(rng, u) }, rng.pick(JUNK)),
-        };
-        emit(format!("{}\tstr\t{}", kind, enc_str(&s)));
+        }
+        for (text, rform, rp) in [
+            ("-0", "i64", "0".to_owned()),
+            ("0x0kb", "str", enc_str("0x0kb")),
+            ("0x10kb", "str", enc_str("0x10kb")),
+            ("010", "u64", "10".to_owned()),
+            ("0o", "str", enc_str("0o")),
+            ("0b", "str", enc_str("0b")),
+            ("0xb", "u64", "11".to_owned()),
+            ("0Xb", "str", enc_str("0Xb")),
+            ("0o8", "str", enc_str("0o8")),
+            (".5", "other", "-".to_owned()),
+            ("1e3", "other", "-".to_owned()),
+            (".inf", "other", "-".to_owned()),
+            (".nan", "other", "-".to_owned()),
+            ("~", "other", "-".to_owned()),
+            ("true", "other", "-".to_owned()),
+            ("!!float 5", "other", "-".to_owned()),
+            ("18446744073709551616", "other", "-".to_owned()),
+            ("-9223372036854775808", "i64", "-9223372036854775808".to_owned()),
+            ("-9223372036854775809", "other", "-".to_owned()),
+            ("340282366920938463463374607431768211456", "other", "-".to_owned()),
+            ("0x10000000000000000", "other", "-".to_owned()),
+            ("++5", "str", enc_str("++5")),
+            ("+-5", "str", enc_str("+-5")),
+            ("5 kb", "str", enc_str("5 kb")),
+            ("5 KiB ", "str", enc_str("5 KiB")),
+            ("5\tkb", "str", enc_str("5\tkb")),
+        ] {
+            emit(plain("yaml", text, rform, &rp));
+        }
+        emit(plain("json", "-0", "other", "-"));
+        emit(plain("toml", "-0", "i64", "0"));
+    }
+    // refresh_rate: every suffix, every multiplier's thresholds, sums around 2^64 seconds
+    let span = |num: u128, z: u64, ws: &str, unit: usize, sep: &str| -> String {
+        format!("{};{};{};{};{}", num, z, enc_str(ws), unit, enc_str(sep))
+    };
+    for (ui, (_, nanos, mult)) in REFRESH_UNITS.iter().enumerate() {
+        let q = ((1u128 << 64) + *mult as u128 - 1) / *mult as u128;
+        let mut nums = vec![0u128, 1, 7, 30, 999_999_999, 1_000_000_000, 1_000_000_001, (1 << 64) - 1, 1 << 64, (1 << 64) + 1];
+        for d in [-2i128, -1, 0, 1] {
+            nums.push((q as i128 + d) as u128);
+        }
+        if *nanos {
+            // the band in which the addition of the nanosecond field to the carried nanoseconds overflows
+            let b = ((1u128 << 64) - 1_000_000_000) / *mult as u128;
+            nums.extend([b - 1, b, b + 1]);
+        }
+        for num in nums {
+            for ws in ["", " "] {
+                emit(format!("refresh\tspans\t{}", span(num, 0, ws, ui, "")));
+            }
+            // preceded by 999999999 ns already carried
+            emit(format!("refresh\tspans\t{},{}", span(999_999_999, 0, "", 2, " "), span(num, 0, "", ui, "")));
+        }
+    }
+    let s_idx = REFRESH_UNITS.iter().position(|u| u.0 == "s").unwrap();
+    let ns_idx = REFRESH_UNITS.iter().position(|u| u.0 == "ns").unwrap();
+    let ms_idx = REFRESH_UNITS.iter().position(|u| u.0 == "ms").unwrap();
+    let us_idx = REFRESH_UNITS.iter().position(|u| u.0 == "us").unwrap();
+    for base in [u64::MAX as u128 - 1, u64::MAX as u128] {
+        for (n2, u2) in [
+            (0u128, s_idx), (1, s_idx), (2, s_idx),
+            (999_999_999, ns_idx), (1_000_000_000, ns_idx), (1_000_000_001, ns_idx), (1_999_999_999, ns_idx), (2_000_000_000, ns_idx),
+            (999, ms_idx), (1000, ms_idx), (1001, ms_idx), (2000, ms_idx), (999_999, us_idx), (1_000_000, us_idx),
+        ] {
+            emit(format!("refresh\tspans\t{},{}", span(base, 0, "", s_idx, " "), span(n2, 0, "", u2, "")));
+            emit(format!("refresh\tspans\t{},{}", span(n2, 0, "", u2, ""), span(base, 0, "", s_idx, "")));
+        }
+        emit(format!("refresh\tspans\t{},{},{}", span(base, 0, "", s_idx, " "), span(500, 0, "", ms_idx, " "), span(500, 0, "", ms_idx, "")));
+        // the same followed by junk: the panic comes before the junk is seen
+        emit(format!("refresh\tstr\t{}", enc_str(&format!("{}s 500ms 500ms x", base))));
+    }
+    for s in [
+        "", " ", "0", "00", "0 ", " 0", "30", "30 ", "1.5s", "1.5 s", "1.s", "1. 5s", ".5s", "1.5", "1.5.5s", "1.05s", "1.50s", "1.000000001s",
+        "1.0000000001s", "0.5ns", "1.5ns", "1.5us", "1.5ms", "1.5m", "1.5h", "1.25h", "1.1h", "1.5d", "1.5w", "1.5M", "1.5y", "1.999999999999999999s",
+        "1.9999999999999999999s", "1.99999999999999999999s", "18446744073709551615.5s", "18446744073709551615.999999999s", "1 2 s", "1 2s 3", "12s3",
+        "12 s 3 m", "1s2m3h", "1sm", "1s m", "s", "s1", "1 S", "30 Seconds", "1 Day", "1 M", "1 m", "1µs", "1 µs", "1µ", "1μs", "1us", "1 u s", "1s,2s",
+        "1s+2s", "-1s", "+1s", "1_000s", "1e3s", "0x10s", "1s\u{0}", "1\u{a0}s", "1\u{2003}s\u{3000}2\u{2028}m", "1\u{200b}s", "１s", "1ｓ", "1s 1s 1s",
+        "1ns 18446744073709551615ns", "18446744073709551615ns 1ns", "18446744073709551615 ns", "18446744073709551616ns", "584554051223y", "584554049253y",
+        "584554049254y", "1 second", "1 seconds", "1 secs", "1 sec", "1 min", "1 mins", "1 hr", "1 hrs", "1 wk", "1 wks", "1 yr", "1 yrs", "1 nanos", "1 millis",
+        "1 micros", "1 msecs", "1 hour 12min 5s", "2h 37min", "1.", "1.s", "1 . 5 s", "1.5 5s", "1.5s5", "1.5s 5",
+    ] {
+        emit(format!("refresh\tstr\t{}", enc_str(s)));
+    }
+    for v in ["0", "30", "-1", "18446744073709551616"] {
+        emit(format!("refresh\tint\t{}", v));
+    }
+    for o in ["null", "float", "ifloat", "efloat", "bool", "seq", "map"] {
+        emit(format!("refresh\tother\t{}", o));
+    }
+    for (text, rform, rp) in [("30 seconds", "str", enc_str("30 seconds")), ("30", "u64", "30".to_owned()), ("1.5", "other", "-".to_owned()), ("30s # x", "str", enc_str("30s"))] {
+        emit(format!("refresh\tplain\tyaml\t{}\t{}\t{}", enc_str(text), rform, rp));
+    }
+
+    // ---- random stream ---------------------------------------------------------------------------
+    for _ in 0..n {
+        let r = rng.below(100);
+        if r < 70 {
+            let (kind, units, nums) = if rng.chance(1, 2) { ("size", SIZE_UNITS, &nums_size) } else { ("interval", TIME_UNITS, &nums_time) };
+            let num = random_number(rng, nums);
+            let z = if rng.chance(1, 10) { rng.range(1, 3) } else { 0 };
+            let ui = rng.below(units.len() as u64) as usize;
+            let mask = rng.below(1 << units[ui].len());
+            match rng.below(20) {
+                0..=8 => {
+                    let ws = ws_string(rng, true);
+                    let ws2 = if rng.chance(1, 4) { ws_string(rng, false) } else { String::new() };
+                    emit(lit(kind, num, z, &ws, Some(ui), mask, &ws2, "-"));
+                }
+                9 => emit(lit(kind, num, z, "", None, 0, "", "-")),
+                10 => emit(lit(kind, num, z, &ws_string(rng, false), None, 0, "", "-")),
+                11 => emit(lit(kind, num, z, &ws_string(rng, true), Some(ui), mask, "", if rng.chance(1, 2) { "neg" } else { "plus" })),
+                12 => emit(lit(kind, num, z, &ws_string(rng, true), if rng.chance(1, 4) { None } else { Some(ui) }, mask, "", &format!("frac.{}", rng.range(0, 999)))),
+                13 => {
+                    let lead = if rng.chance(1, 3) { char::from_u32(*rng.pick(ODD_DIGITS)).unwrap().to_string() } else { ws_string(rng, false) };
+                    emit(lit(kind, num, z, &ws_string(rng, true), if rng.chance(1, 4) { None } else { Some(ui) }, mask, "", &format!("lead.{}", enc_str(&lead))))
+                }
+                14 => {
+                    let pool = if rng.chance(1, 4) { ODD_DIGITS } else { NEAR_WS };
+                    let g = char::from_u32(*rng.pick(pool)).unwrap().to_string();
+                    emit(lit(kind, num, z, &ws_string(rng, true), Some(ui), mask, "", &format!("gap.{}", enc_str(&g))))
+                }
+                15 => emit(lit(kind, num, z, &ws_string(rng, true), Some(ui), mask, "", &format!("sfx.{}", enc_str(*rng.pick(HARD_SUFFIX))))),
+                16 => emit(format!("{}\tstr\t{}", kind, enc_str(&format!("{}{}{}", num, ws_string(rng, true), rng.pick(JUNK))))),
+                17 => emit(format!("{}\tstr\t{}", kind, enc_str(&format!("{}{}{}{}", num, ws_string(rng, true), apply_mask(units[ui], mask), rng.pick(JUNK))))),
+                18 => {
+                    // random junk over the syntax alphabet
+                    let k = rng.range(0, 8);
+                    let s: String = (0..k).map(|_| *rng.pick(ALPHABET)).collect();
+                    let s = if rng.chance(1, 2) { format!("{}{}", rng.range(0, 99), s) } else { s };
+                    emit(format!("{}\tstr\t{}", kind, enc_str(&s)));
+                }
+                _ => {
+                    // integer tokens: random magnitude and sign
+                    let neg = num > 0 && rng.chance(1, 3);
+                    emit(format!("{}\tint\t{}{}", kind, if neg { "-" } else { "" }, num));
+                }
+            }
+        } else {
+            // refresh_rate
+            match rng.below(10) {
+                0..=6 => {
+                    let k = if rng.chance(1, 2) { 1 } else { rng.range(2, 4) };
+                    let mut spans = vec![];
+                    for i in 0..k {
+                        let ui = rng.below(REFRESH_UNITS.len() as u64) as usize;
+                        let mult = REFRESH_UNITS[ui].2 as u128;
+                        let num = match rng.below(6) {
+                            0 => ((1u128 << 64) / mult).saturating_sub(rng.below(3) as u128) + rng.below(2) as u128,
+                            1 => rng.below(1000) as u128,
+                            2 => (rng.next() as u128) / mult,
+                            3 => rng.next() as u128,
+                            4 => rng.range(999_999_990, 1_000_000_010) as u128,
+                            _ => random_number(rng, &[0, 1, 60]),
+                        };
+                        let z = if rng.chance(1, 10) { rng.range(1, 2) } else { 0 };
+                        let sep = if i + 1 == k { if rng.chance(1, 5) { ws_string(rng, false) } else { String::new() } } else { ws_string(rng, true) };
+                        spans.push(span(num, z, &ws_string(rng, true), ui, &sep));
+                    }
+                    emit(format!("refresh\tspans\t{}", spans.join(",")));
+                }
+                7 => {
+                    let ui = rng.below(REFRESH_UNITS.len() as u64) as usize;
+                    let w = REFRESH_UNITS[ui].0;
+                    let w2 = if rng.chance(1, 2) { apply_mask(w, rng.below(1 << w.chars().count())) } else { format!("{}{}", w, rng.pick(JUNK)) };
+                    emit(format!("refresh\tstr\t{}", enc_str(&format!("{}{}{}", rng.below(100), ws_string(rng, true), w2))));
+                }
+                8 => {
+                    let ui = rng.below(REFRESH_UNITS.len() as u64) as usize;
+                    let fr: String = (0..rng.range(0, 21)).map(|_| (b'0' + rng.below(10) as u8) as char).collect();
+                    emit(format!(
+                        "refresh\tstr\t{}",
+                        enc_str(&format!("{}.{}{}{}", random_number(rng, &[0, 1, u64::MAX as u128]), fr, ws_string(rng, true), REFRESH_UNITS[ui].0))
+                    ));
+                }
+                _ => {
+                    let k = rng.range(0, 10);
+                    let s: String = (0..k).map(|_| *rng.pick(ALPHABET)).collect();
+                    emit(format!("refresh\tstr\t{}", enc_str(&s)));
+                }
+            }
+        }
+    }
+    let _ = thorough;
+}
+
+// ---------------------------------------------------------------------------------------------------
+// composing the text of an intent case (mirrored by Driver/C20.lean)
+// ---------------------------------------------------------------------------------------------------
+fn compose_lit(kind: &str, f: &[&str]) -> Option<String> {
+    if f.len() != 7 {
+        return None;
+    }
+    let units = if kind == "size" { SIZE_UNITS } else { TIME_UNITS };
+    if f[0].is_empty() || !f[0].bytes().all(|b| b.is_ascii_digit()) {
+        return None;
+    }
+    let z: usize = f[1].parse().ok()?;
+    let ws = dec_str(f[2])?;
+    let unit = if f[3] == "-" { None } else { Some(*units.get(f[3].parse::<usize>().ok()?)?) };
+    let mask: u64 = f[4].parse().ok()?;
+    let ws2 = dec_str(f[5])?;
+    let number = format!("{}{}", "0".repeat(z), f[0]);
+    let unit = unit.map(|u| apply_mask(u, mask)).unwrap_or_default();
+    let m = f[6];
+    Some(if m == "-" {
+        format!("{}{}{}{}", number, ws, unit, ws2)
+    } else if m == "neg" {
+        format!("-{}{}{}{}", number, ws, unit, ws2)
+    } else if m == "plus" {
+        format!("+{}{}{}{}", number, ws, unit, ws2)
+    } else if let Some(d) = m.strip_prefix("frac.") {
+        if d.is_empty() || !d.bytes().all(|b| b.is_ascii_digit()) {
+            return None;
+        }
+        format!("{}.{}{}{}{}", number, d, ws, unit, ws2)
+    } else if let Some(l) = m.strip_prefix("lead.") {
+        let l = dec_str(l)?;
+        if l.is_empty() {
+            return None;
+        }
+        format!("{}{}{}{}{}", l, number, ws, unit, ws2)
+    } else if let Some(g) = m.strip_prefix("gap.") {
+        let g = dec_str(g)?;
+        if g.is_empty() {
+            return None;
+        }
+        format!("{}{}{}{}{}", number, ws, g, unit, ws2)
+    } else if let Some(x) = m.strip_prefix("sfx.") {
+        let x = dec_str(x)?;
+        if x.is_empty() {
+            return None;
+        }
+        format!("{}{}{}{}{}", number, ws, unit, x, ws2)
+    } else {
+        return None;
+    })
+}
+
+fn compose_spans(field: &str) -> Option<String> {
+    let mut out = String::new();
+    for sp in field.split(',') {
+        let p: Vec<&str> = sp.split(';').collect();
+        if p.len() != 5 || p[0].is_empty() || !p[0].bytes().all(|b| b.is_ascii_digit()) {
+            return None;
+        }
+        let z: usize = p[1].parse().ok()?;
+        let unit = REFRESH_UNITS.get(p[3].parse::<usize>().ok()?)?.0;
+        write!(out, "{}{}{}{}{}", "0".repeat(z), p[0], dec_str(p[2])?, unit, dec_str(p[4])?).ok()?;
+    }
+    Some(out)
+}
+
+// ---------------------------------------------------------------------------------------------------
+// documents
+// ---------------------------------------------------------------------------------------------------
+fn yaml_quote(s: &str) -> String {
+    let mut o = String::from("\"");
+    for c in s.chars() {
+        match c {
+            '"' => o.push_str("\\\""),
+            '\\' => o.push_str("\\\\"),
+            ' '..='~' => o.push(c),
+            _ => {
+                let n = c as u32;
+                if n <= 0xff {
+                    write!(o, "\\x{:02x}", n).unwrap()
+                } else if n <= 0xffff {
+                    write!(o, "\\u{:04x}", n).unwrap()
+                } else {
+                    write!(o, "\\U{:08x}", n).unwrap()
+                }
+            }
+        }
+    }
+    o.push('"');
+    o
+}
+
+fn toml_quote(s: &str) -> String {
+    let mut o = String::from("\"");
+    for c in s.chars() {
+        match c {
+            '"' => o.push_str("\\\""),
+            '\\' => o.push_str("\\\\"),
+            ' '..='~' => o.push(c),
+            _ => {
+                let n = c as u32;
+                if n <= 0xffff {
+                    write!(o, "\\u{:04x}", n).unwrap()
+                } else {
+                    write!(o, "\\U{:08x}", n).unwrap()
+                }
+            }
+        }
+    }
+    o.push('"');
+    o
+}
+
+fn json_quote(s: &str) -> String {
+    serde_json::to_string(s).unwrap()
+}
+
+#[derive(Clone, Copy, PartialEq)]
+enum Fmt {
+    Yaml,
+    Json,
+    Toml,
+}
+
+fn key_of(kind: &str) -> &'static str {
+    match kind {
+        "size" => "limit",
+        "interval" => "interval",
+        _ => "refresh_rate",
     }
 }
 
-fn json_scalar(form: &str, payload: &str) -> Option<String> {
-    match form {
-        "int" => Some(payload.to_owned()),
-        "str" => dec_str(payload).map(|s| serde_json::to_string(&s).unwrap()),
-        "other" => Some(match payload {
-            "float" => "1.5".to_owned(),
-            "bool" => "true".to_owned(),
-            _ => "null".to_owned(),
-        }),
-        _ => None,
+/// the one-field document for the config struct itself
+fn direct_doc(fmt: Fmt, key: &str, scalar: &str) -> String {
+    match fmt {
+        Fmt::Yaml => format!("{}: {}\n", key, scalar),
+        Fmt::Json => format!("{{\"{}\": {}}}", key, scalar),
+        Fmt::Toml => format!("{} = {}\n", key, scalar),
     }
 }
 
-fn yaml_scalar(form: &str, payload: &str) -> Option<String> {
-    match form {
-        "int" => Some(payload.to_owned()),
-        // double-quoted YAML accepts the JSON string syntax
-        "str" => dec_str(payload).map(|s| serde_json::to_string(&s).unwrap()),
-        "other" => Some(match payload {
-            "float" => "1.5".to_owned(),
-            "bool" => "true".to_owned(),
-            _ => "~".to_owned(),
-        }),
-        _ => None,
+/// a whole log4rs configuration with one rolling_file appender whose trigger carries the scalar
+fn cfg_doc(fmt: Fmt, kind: &str, scalar: &str, log: &str) -> String {
+    let tkind = if kind == "size" { "size" } else { "time" };
+    let key = key_of(kind);
+    match fmt {
+        Fmt::Yaml => format!(
+            "appenders:\n  a:\n    kind: rolling_file\n    path: {}\n    encoder:\n      pattern: \"{{m}}\"\n    policy:\n      trigger:\n        kind: {}\n        {}: {}\n      roller:\n        kind: delete\nroot:\n  level: trace\n  appenders:\n    - a\n",
+            yaml_quote(log), tkind, key, scalar
+        ),
+        Fmt::Json => format!(
+            "{{\"appenders\": {{\"a\": {{\"kind\": \"rolling_file\", \"path\": {}, \"encoder\": {{\"pattern\": \"{{m}}\"}}, \"policy\": {{\"trigger\": {{\"kind\": \"{}\", \"{}\": {}}}, \"roller\": {{\"kind\": \"delete\"}}}}}}}}, \"root\": {{\"level\": \"trace\", \"appenders\": [\"a\"]}}}}",
+            json_quote(log), tkind, key, scalar
+        ),
+        Fmt::Toml => format!(
+            "[root]\nlevel = \"trace\"\nappenders = [\"a\"]\n[appenders.a]\nkind = \"rolling_file\"\npath = {}\n[appenders.a.encoder]\npattern = \"{{m}}\"\n[appenders.a.policy.roller]\nkind = \"delete\"\n[appenders.a.policy.trigger]\nkind = \"{}\"\n{} = {}\n",
+            toml_quote(log), tkind, key, scalar
+        ),
     }
 }
 
-fn render_interval(c: &TimeTriggerConfig) -> String {
-    // TimeTriggerConfig's fields are private; its Debug output names the interval variant
-    let d = format!("{:?}", c);
+fn render_interval_dbg(d: &str) -> String {
     for (name, tag) in [
-        ("Second(", "second"),
-        ("Minute(", "minute"),
-        ("Hour(", "hour"),
-        ("Day(", "day"),
-        ("Week(", "week"),
-        ("Month(", "month"),
-        ("Year(", "year"),
+        ("interval: Second(", "second"),
+        ("interval: Minute(", "minute"),
+        ("interval: Hour(", "hour"),
+        ("interval: Day(", "day"),
+        ("interval: Week(", "week"),
+        ("interval: Month(", "month"),
+        ("interval: Year(", "year"),
     ] {
         if let Some(i) = d.find(name) {
             let rest = &d[i + name.len()..];
-            let end = rest.find(')').unwrap();
-            return format!("ok:{}:{}", tag, &rest[..end]);
+            if let Some(end) = rest.find(')') {
+                return format!("ok:{}:{}", tag, &rest[..end]);
+            }
         }
     }
-    format!("unparsed:{}", d)
+    format!("unparsed:{}", d.replace(['\t', '\n'], " "))
 }
 
-fn render_size(c: &SizeTriggerConfig) -> String {
-    let d = format!("{:?}", c);
-    let i = d.find("limit: ").unwrap();
-    let rest = &d[i + 7..];
-    let end = rest.find(|ch: char| !ch.is_ascii_digit()).unwrap();
-    format!("ok:{}", &rest[..end])
-}
-
-pub fn exec(fields: &[&str]) -> String {
-    if fields.len() != 3 {
-        return "bad-case".to_owned();
+fn render_size_dbg(d: &str, marker: &str) -> String {
+    match d.find(marker) {
+        Some(i) => {
+            let rest = &d[i + marker.len()..];
+            let end = rest.find(|ch: char| !ch.is_ascii_digit()).unwrap_or(rest.len());
+            format!("ok:{}", &rest[..end])
+        }
+        None => format!("unparsed:{}", d.replace(['\t', '\n'], " ")),
     }
-    let (kind, form, payload) = (fields[0], fields[1], fields[2]);
-    let (js, ys) = match (json_scalar(form, payload), yaml_scalar(form, payload)) {
-        (Some(j), Some(y)) => (j, y),
-        _ => return "bad-case".to_owned(),
-    };
-    let _ = TimeTriggerInterval::Second(1);
-    let run = |doc: String, yaml: bool| -> String {
-        let r = guarded(move || match kind {
-            "size" => {
-                let r: Result<SizeTriggerConfig, String> = if yaml {
-                    serde_yaml::from_str(&doc).map_err(|e| e.to_string())
-                } else {
-                    serde_json::from_str(&doc).map_err(|e| e.to_string())
-                };
-                match r {
-                    Ok(c) => render_size(&c),
-                    Err(_) => "err".to_owned(),
+}
+
+fn run_direct(fmt: Fmt, kind: &'static str, doc: String) -> String {
+    let r = guarded(move || match kind {
+        "size" => {
+            let r: Result<SizeTriggerConfig, String> = match fmt {
+                Fmt::Yaml => serde_yaml::from_str(&doc).map_err(|e| e.to_string()),
+                Fmt::Json => serde_json::from_str(&doc).map_err(|e| e.to_string()),
+                Fmt::Toml => toml::from_str(&doc).map_err(|e| e.to_string()),
+            };
+            match r {
+                Ok(c) => render_size_dbg(&format!("{:?}", c), "limit: "),
+                Err(_) => "err".to_owned(),
+            }
+        }
+        "interval" => {
+            let r: Result<TimeTriggerConfig, String> = match fmt {
+                Fmt::Yaml => serde_yaml::from_str(&doc).map_err(|e| e.to_string()),
+                Fmt::Json => serde_json::from_str(&doc).map_err(|e| e.to_string()),
+                Fmt::Toml => toml::from_str(&doc).map_err(|e| e.to_string()),
+            };
+            match r {
+                Ok(c) => render_interval_dbg(&format!("{:?}", c)),
+                Err(_) => "err".to_owned(),
+            }
+        }
+        _ => {
+            let r: Result<RawConfig, String> = match fmt {
+                Fmt::Yaml => serde_yaml::from_str(&doc).map_err(|e| e.to_string()),
+                Fmt::Json => serde_json::from_str(&doc).map_err(|e| e.to_string()),
+                Fmt::Toml => toml::from_str(&doc).map_err(|e| e.to_string()),
+            };
+            match r {
+                Ok(c) => match c.refresh_rate() {
+                    Some(d) => format!("ok:{}:{}", d.as_secs(), d.subsec_nanos()),
+                    None => "none".to_owned(),
+                },
+                Err(_) => "err".to_owned(),
+            }
+        }
+    });
+    r.unwrap_or_else(|_| "PANIC".to_owned())
+}
+
+static COUNTER: std::sync::atomic::AtomicU64 = std::sync::atomic::AtomicU64::new(0);
+
+/// a fresh directory under $VERIF_SCRATCH, removed again on drop
+struct Scratch(PathBuf);
+impl Scratch {
+    fn new() -> Scratch {
+        let base = std::env::var("VERIF_SCRATCH").unwrap_or_else(|_| "/tmp/verif-scratch".to_owned());
+        let n = COUNTER.fetch_add(1, std::sync::atomic::Ordering::SeqCst);
+        let p = PathBuf::from(base).join(format!("c20-{}-{}", std::process::id(), n));
+        let _ = std::fs::remove_dir_all(&p);
+        std::fs::create_dir_all(&p).unwrap();
+        Scratch(p)
+    }
+}
+impl Drop for Scratch {
+    fn drop(&mut self) {
+        let _ = std::fs::remove_dir_all(&self.0);
+    }
+}
+
+/// the real configuration path; `roll` asks for the rolling run when the parsed limit is small
+fn run_cfg(fmt: Fmt, kind: &'static str, scalar: &str, roll: bool) -> String {
+    let scratch = Scratch::new();
+    let log = scratch.0.join("x.log");
+    let logs = log.to_string_lossy().into_owned();
+    let doc = cfg_doc(fmt, kind, scalar, &logs);
+    let dir = scratch.0.clone();
+    let r = guarded(move || {
+        let config = match fmt {
+            Fmt::Yaml => {
+                // the public entry point: file on disk, format by extension, errors reported and the
+                // appender dropped
+                let file = dir.join("c.yml");
+                std::fs::write(&file, &doc).unwrap();
+                match log4rs::config::load_config_file(&file, Deserializers::default()) {
+                    Ok(c) => c,
+                    Err(_) => return "err".to_owned(),
                 }
             }
             _ => {
-                let r: Result<TimeTriggerConfig, String> = if yaml {
-                    serde_yaml::from_str(&doc).map_err(|e| e.to_string())
-                } else {
+                let raw: Result<RawConfig, String> = if fmt == Fmt::Json {
                     serde_json::from_str(&doc).map_err(|e| e.to_string())
+                } else {
+                    toml::from_str(&doc).map_err(|e| e.to_string())
                 };
-                match r {
-                    Ok(c) => render_interval(&c),
-                    Err(_) => "err".to_owned(),
+                let raw = match raw {
+                    Ok(r) => r,
+                    Err(_) => return "err".to_owned(),
+                };
+                let (apps, errs) = raw.appenders_lossy(&Deserializers::default());
+                if format!("{:?}", errs).contains("Appender(") != apps.is_empty() {
+                    return "CFG-INCONSISTENT".to_owned();
                 }
+                let (c, _) = log4rs::config::Config::builder().appenders(apps).build_lossy(raw.root());
+                c
             }
-        });
-        match r {
-            Ok(s) => s,
-            Err(_) => "PANIC".to_owned(),
+        };
+        let app = match config.appenders().iter().find(|a| a.name() == "a") {
+            Some(a) => a,
+            None => return "err".to_owned(),
+        };
+        let d = format!("{:?}", app);
+        if kind == "interval" {
+            return render_interval_dbg(&d);
         }
-    };
-    let key = if kind == "size" { "limit" } else { "interval" };
-    let j = run(format!("{{\"{}\": {}}}", key, js), false);
-    let y = run(format!("{}: {}\n", key, ys), true);
-    // TOML hands every integer to the visitor as i64 (visit_i64), so it exercises the signed path
-    // for non-negative values too. TOML has no integers above i64::MAX and no null; those are skipped.
-    let toml_doc = match form {
-        "int" => payload.parse::<i64>().ok().map(|n| format!("{} = {}\n", key, n)),
-        "str" => dec_str(payload).map(|s| format!("{} = {}\n", key, serde_json::to_string(&s).unwrap())),
-        "other" => match payload {
-            "float" => Some(format!("{} = 1.5\n", key)),
-            "bool" => Some(format!("{} = true\n", key)),
-            _ => None,
-        },
-        _ => None,
-    };
-    let t = toml_doc.map(|doc| {
-        let r = guarded(move || match kind {
-            "size" => match toml::from_str::<SizeTriggerConfig>(&doc) {
-                Ok(c) => render_size(&c),
-                Err(_) => "err".to_owned(),
-            },
-            _ => match toml::from_str::<TimeTriggerConfig>(&doc) {
-                Ok(c) => render_interval(&c),
-                Err(_) => "err".to_owned(),
-            },
-        });
-        r.unwrap_or_else(|_| "PANIC".to_owned())
+        let obs = render_size_dbg(&d, "SizeTrigger { limit: ");
+        if !roll {
+            return obs;
+        }
+        let limit: u64 = match obs.strip_prefix("ok:").and_then(|x| x.parse().ok()) {
+            Some(l) if l <= ROLL_MAX => l,
+            _ => return obs,
+        };
+        // rolling run at the parsed limit
+        let write = |bytes: usize| {
+            let msg = "x".repeat(bytes);
+            let _ = app.appender().append(
+                &log::Record::builder().level(log::Level::Info).target("t").args(format_args!("{}", msg)).build(),
+            );
+        };
+        let len = |p: &std::path::Path| std::fs::metadata(p).map(|m| m.len()).unwrap_or(0);
+        if limit > 0 {
+            write(limit as usize);
+        }
+        // the delete roller removes the file; "rolled" = the bytes just written are gone
+        let first = if len(&log) == limit { 0 } else { 1 };
+        write(1);
+        let second = if len(&log) == 0 { 1 } else { 0 };
+        format!("{} roll={}{}", obs, first, second)
     });
-    let toml_ok = t.as_ref().map(|t| *t == j).unwrap_or(true);
-    if j == y && toml_ok {
-        j
-    } else {
-        format!("FORMATS-DISAGREE json={} yaml={} toml={}", j, y, t.unwrap_or_else(|| "-".to_owned()))
+    r.unwrap_or_else(|_| "PANIC".to_owned())
+}
+
+pub const ROLL_MAX: u64 = 2048;
+
+/// does the YAML plain scalar `text` resolve to exactly the string `s`? (decided by the real YAML parser)
+fn yaml_plain_is_string(text: &str, s: &str) -> bool {
+    if text.is_empty() || text.chars().any(|c| matches!(c, '\n' | '\r' | '\u{85}' | '\u{2028}' | '\u{2029}')) {
+        return false;
+    }
+    match serde_yaml::from_str::<serde_yaml::Value>(&format!("k:\n  kk: {}\n", text)) {
+        Ok(serde_yaml::Value::Mapping(m)) => match m.get("k") {
+            Some(serde_yaml::Value::Mapping(m2)) => m2.len() == 1 && m2.get("kk") == Some(&serde_yaml::Value::String(s.to_owned())),
+            _ => false,
+        },
+        _ => false,
     }
 }
 
-/// child-process entry point (`verif-harness child c20 …`), for checks that need process-global state
+fn merge(legs: Vec<(&'static str, String)>) -> String {
+    let first = legs[0].1.clone();
+    // the rolling run is appended by one leg only: compare on the part before it
+    let head = |s: &str| s.split(" roll=").next().unwrap().to_owned();
+    if legs.iter().all(|(_, o)| head(o) == head(&first)) {
+        legs.iter().map(|(_, o)| o).find(|o| o.contains(" roll=")).cloned().unwrap_or(first)
+    } else {
+        let mut s = String::from("LEGS-DISAGREE");
+        for (n, o) in legs {
+            write!(s, " {}={}", n, o.replace('\t', " ")).unwrap();
+        }
+        s
+    }
+}
+
+fn static_kind(kind: &str) -> Option<&'static str> {
+    match kind {
+        "size" => Some("size"),
+        "interval" => Some("interval"),
+        "refresh" => Some("refresh"),
+        _ => None,
+    }
+}
+
+fn run_string(kind: &'static str, s: &str) -> String {
+    let key = key_of(kind);
+    let (y, j, t) = (yaml_quote(s), json_quote(s), toml_quote(s));
+    let mut legs = vec![
+        ("json", run_direct(Fmt::Json, kind, direct_doc(Fmt::Json, key, &j))),
+        ("yaml", run_direct(Fmt::Yaml, kind, direct_doc(Fmt::Yaml, key, &y))),
+        ("toml", run_direct(Fmt::Toml, kind, direct_doc(Fmt::Toml, key, &t))),
+    ];
+    let plain = yaml_plain_is_string(s, s);
+    if plain {
+        legs.push(("yaml-plain", run_direct(Fmt::Yaml, kind, direct_doc(Fmt::Yaml, key, s))));
+    }
+    if kind != "refresh" {
+        legs.push(("cfg-yaml", run_cfg(Fmt::Yaml, kind, &y, true)));
+        legs.push(("cfg-json", run_cfg(Fmt::Json, kind, &j, false)));
+        legs.push(("cfg-toml", run_cfg(Fmt::Toml, kind, &t, false)));
+        if plain {
+            legs.push(("cfg-yaml-plain", run_cfg(Fmt::Yaml, kind, s, false)));
+        }
+    }
+    merge(legs)
+}
+
+pub fn exec(fields: &[&str]) -> String {
+    if fields.len() < 3 {
+        return "bad-case".to_owned();
+    }
+    let kind = match static_kind(fields[0]) {
+        Some(k) => k,
+        None => return "bad-case".to_owned(),
+    };
+    let key = key_of(kind);
+    match (fields[1], fields.len()) {
+        ("int", 3) => {
+            let tok = fields[2];
+            let body = tok.strip_prefix('-').unwrap_or(tok);
+            if body.is_empty() || !body.bytes().all(|b| b.is_ascii_digit()) || (body.len() > 1 && body.starts_with('0')) || tok == "-0" {
+                return "bad-case".to_owned();
+            }
+            let mut legs = vec![
+                ("json", run_direct(Fmt::Json, kind, direct_doc(Fmt::Json, key, tok))),
+                ("yaml", run_direct(Fmt::Yaml, kind, direct_doc(Fmt::Yaml, key, tok))),
+            ];
+            // TOML hands every integer to the visitor as i64 (visit_i64); it has no integers outside i64
+            let toml_ok = tok.parse::<i64>().is_ok();
+            if toml_ok {
+                legs.push(("toml", run_direct(Fmt::Toml, kind, direct_doc(Fmt::Toml, key, tok))));
+            }
+            if kind != "refresh" {
+                legs.push(("cfg-yaml", run_cfg(Fmt::Yaml, kind, tok, true)));
+                legs.push(("cfg-json", run_cfg(Fmt::Json, kind, tok, false)));
+                if toml_ok {
+                    legs.push(("cfg-toml", run_cfg(Fmt::Toml, kind, tok, false)));
+                }
+            }
+            merge(legs)
+        }
+        ("str", 3) => match dec_str(fields[2]) {
+            Some(s) => run_string(kind, &s),
+            None => "bad-case".to_owned(),
+        },
+        ("lit", 9) if kind != "refresh" => match compose_lit(kind, &fields[2..]) {
+            Some(s) => run_string(kind, &s),
+            None => "bad-case".to_owned(),
+        },
+        ("spans", 3) if kind == "refresh" => match compose_spans(fields[2]) {
+            Some(s) => run_string(kind, &s),
+            None => "bad-case".to_owned(),
+        },
+        ("other", 3) => {
+            let (y, j, t): (&str, &str, Option<&str>) = match fields[2] {
+                "null" => ("~", "null", None),
+                "float" => ("1.5", "1.5", Some("1.5")),
+                "ifloat" => ("10.0", "10.0", Some("10.0")),
+                "efloat" => ("1e3", "1e3", Some("1e3")),
+                "bool" => ("true", "true", Some("true")),
+                "seq" => ("[1]", "[1]", Some("[1]")),
+                "map" => ("{a: 1}", "{\"a\": 1}", Some("{a = 1}")),
+                _ => return "bad-case".to_owned(),
+            };
+            let mut legs = vec![
+                ("json", run_direct(Fmt::Json, kind, direct_doc(Fmt::Json, key, j))),
+                ("yaml", run_direct(Fmt::Yaml, kind, direct_doc(Fmt::Yaml, key, y))),
+            ];
+            if let Some(t) = t {
+                legs.push(("toml", run_direct(Fmt::Toml, kind, direct_doc(Fmt::Toml, key, t))));
+            }
+            if kind != "refresh" {
+                legs.push(("cfg-yaml", run_cfg(Fmt::Yaml, kind, y, false)));
+                legs.push(("cfg-json", run_cfg(Fmt::Json, kind, j, false)));
+                if let Some(t) = t {
+                    legs.push(("cfg-toml", run_cfg(Fmt::Toml, kind, t, false)));
+                }
+            }
+            merge(legs)
+        }
+        ("plain", 6) => {
+            let fmt = match fields[2] {
+                "yaml" => Fmt::Yaml,
+                "json" => Fmt::Json,
+                "toml" => Fmt::Toml,
+                _ => return "bad-case".to_owned(),
+            };
+            let text = match dec_str(fields[3]) {
+                Some(t) => t,
+                None => return "bad-case".to_owned(),
+            };
+            let mut legs = vec![("direct", run_direct(fmt, kind, direct_doc(fmt, key, &text)))];
+            if kind != "refresh" {
+                legs.push(("cfg", run_cfg(fmt, kind, &text, fmt == Fmt::Yaml)));
+            }
+            merge(legs)
+        }
+        _ => "bad-case".to_owned(),
+    }
+}
+
+/// child-process entry point (`verif-harness child c20 …`), unused
 pub fn child(_args: &[String]) -> i32 {
     2
 }
